@@ -58,6 +58,31 @@ namespace Dune {
     typedef typename map_type::const_iterator const_map_iterator;
 
   public:
+    lru() = default;
+
+    /**
+     * @brief Copy constructor
+     *
+     * The index stores iterators into the list of entries, so it
+     * has to be rebuilt for the copied list.
+     */
+    lru(const lru& other)
+      : _data(other._data)
+    {
+      rebuildIndex();
+    }
+
+    //! Copy assignment, see the copy constructor
+    lru& operator=(const lru& other)
+    {
+      if (this != &other)
+      {
+        _data = other._data;
+        rebuildIndex();
+      }
+      return *this;
+    }
+
     typedef typename Traits::key_type key_type;
     typedef typename allocator::value_type value_type;
     using pointer = typename allocator::value_type*;
@@ -246,6 +271,14 @@ namespace Dune {
     }
 
   private:
+    //! let _index refer to the entries of _data
+    void rebuildIndex()
+    {
+      _index.clear();
+      for (iterator it = _data.begin(); it != _data.end(); ++it)
+        _index.insert(std::make_pair(it->first, it));
+    }
+
     list_type _data;
     map_type _index;
 
